@@ -53,6 +53,14 @@ Emit == vKind # "none" =>
         /\ Same(o, <<o>>, o, <<v>>)                       \* as the allowed entry
         /\ Same(In3(o), <<P2, o>>, In3(v), <<P2, o>>)     \* inside a three-term expression
         /\ Same(In3(o), <<P2, o>>, In3(o), <<P2, v>>)
+        /\ (vKind = "lic" /\ ~HasSuffix(Orig, "-or-later")) =>     \* the '+' shorthand on a case variant
+              /\ Same(o \o "+", <<LicRel[vIdx]>>, v \o "+", <<LicRel[vIdx]>>)
+              /\ Same(LicRel[vIdx], <<o \o "+">>, LicRel[vIdx], <<v \o "+">>)
+              /\ Same(o \o "+ WITH " \o ExcIds[1], <<o \o "+ WITH " \o ExcIds[1]>>, v \o "+ WITH " \o ExcIds[1], <<o \o "+ WITH " \o ExcIds[1]>>)
+        /\ (vKind = "lic" /\ HasSuffix(Orig, "-or-later")) =>      \* listed X-or-later: the shorthand X+ with X in variant case
+              LET b == VarOf(DropSuffix(Orig, 9)) \o "+" IN
+              /\ PrintT(ToJson([k |-> "str", s |-> b, valid |-> Valid(b), compound |-> FALSE, amb |-> SetToSeqS(Parse(b).amb)]))
+              /\ Same(o, <<o>>, b, <<o>>) /\ Same(LicRel[vIdx], <<o>>, LicRel[vIdx], <<b>>)
         /\ vKind = "lic" =>                              \* a match that goes through the version range, both ways
               /\ Same(LicRel[vIdx], <<o>>, LicRel[vIdx], <<v>>)
               /\ Same(o, <<LicRel[vIdx]>>, v, <<LicRel[vIdx]>>)
